@@ -22,6 +22,7 @@ PROPERTY = "C19"
 LEVEL = "exploration"
 
 TAGVALS = [None, "a", "b"]
+VERVALS = [None, "1.5", "125"]
 STATES = [None, "DONE", "ERROR", "RUNNING"]
 TASK = "my.task"
 HEX = "0123456789abcdef" * 4
@@ -40,6 +41,12 @@ def atoms():
         out.append((f'{t} not in ["a","b"]', ("notin", t, ["a", "b"])))
         out.append((f'{t} ~ "^a$"', ("re", t, "^a$")))
         out.append((f'{t} ~ "a|b"', ("re", t, "a|b")))
+    # regular expressions / constants with a backslash (taken literally: the grammar defines no escape character)
+    out.append((r'ver ~ "^1\.5$"', ("re", "ver", r"^1\.5$")))
+    out.append((r'ver ~ "^\d+$"', ("re", "ver", r"^\d+$")))
+    out.append(('ver = "1.5"', ("eq", "ver", "1.5")))
+    out.append(('ver in ["1.5", "125"]', ("in", "ver", ["1.5", "125"])))
+    out.append((r'ver = "1\.5"', ("eq", "ver", r"1\.5")))
     out.append(("model = mode", ("eqvar", "model", "mode")))
     for s in ("DONE", "ERROR", "RUNNING"):
         out.append((f'@state = "{s}"', ("eq", "@state", s)))
@@ -99,11 +106,11 @@ def filter_world():
     atexit.register(lambda: shutil.rmtree(d, ignore_errors=True))
     infos = []
     n = 0
-    for model, mode, st in itertools.product(TAGVALS, TAGVALS, STATES):
+    for model, mode, ver, st in itertools.product(TAGVALS, TAGVALS, VERVALS, STATES):
         n += 1
         p = d / "jobs" / TASK / f"{n:064x}"
         p.mkdir(parents=True)
-        tags = {k: v for k, v in (("model", model), ("mode", mode)) if v is not None}
+        tags = {k: v for k, v in (("model", model), ("mode", mode), ("ver", ver)) if v is not None}
         (p / "params.json").write_text(json.dumps({"tags": tags, "workspace": str(d), "objects": []}))
         if st == "DONE":
             (p / "task.done").touch()
